@@ -3,6 +3,7 @@ import Driver.IntegerD
 import Driver.VammD
 import Driver.FeedD
 import Driver.WorldD
+import Driver.InstD
 
 namespace Driver
 
@@ -52,6 +53,7 @@ def handle (s : DState) (line0 : String) : DState :=
     else
       let (a, h, st) := handleWObs acc s.wh kv line
       { s with acc := a, wh := h, twinA := if kv.str "w" == "A" then st else none }
+  | "EINST" => { s with acc := handleEInst acc kv line }
   | "QRY" => { s with acc := handleWQry acc (if kv.str "w" == "B" then s.whB else s.wh) kv line }
   | "PCFG" => let (a, h) := handlePCfg acc kv; { s with acc := a, fh := h }
   | "POP" => let (a, h) := handlePOp acc s.fh kv line; { s with acc := a, fh := h }
